@@ -60,7 +60,25 @@ def run(ctx: Ctx):
         pinst, pattr, pval = (a.arg for a in fn.args.args)
         # ---- usage shape of `value`
         consts = set()
-        for kind, node in microeval.param_uses(fn, pval):
+        module_fns = {st.name: st for st in tree.body if isinstance(st, ast.FunctionDef)}
+
+        def uses_deep(f, param, depth=0):
+            """param_uses, following the value into helper functions of the module it is handed to"""
+            out = []
+            for kind, node in microeval.param_uses(f, param):
+                if kind == "other" and isinstance(node, ast.Call) and isinstance(node.func, ast.Name) \
+                        and node.func.id in module_fns and depth < 3:
+                    callee = module_fns[node.func.id]
+                    idxs = [i_ for i_, a in enumerate(node.args) if isinstance(a, ast.Name) and a.id == param]
+                    kws = [k.arg for k in node.keywords if isinstance(k.value, ast.Name) and k.value.id == param]
+                    names = [callee.args.args[i_].arg for i_ in idxs if i_ < len(callee.args.args)] + kws
+                    if names and len(names) == len(idxs) + len(kws):
+                        for nm in names:
+                            out.extend(uses_deep(callee, nm, depth + 1))
+                        continue
+                out.append((kind, node))
+            return out
+        for kind, node in uses_deep(fn, pval):
             if kind == "compare":
                 for op_node in [node.left] + node.comparators:
                     if isinstance(op_node, ast.Name) and op_node.id == pval:
@@ -126,16 +144,9 @@ def run(ctx: Ctx):
                 ctx.check(ok, "total-on-any-argument", f"{vname}:{label}:attr={'obj' if isinstance(av, Record) else 'str'}",
                           f"{vname}({v!r}) gives {got}; expected ValueError" +
                           (" or True" if label.startswith("bool") else ""), P_VALIDATORS, fn.lineno)
-        # ---- exits
-        for node in ast.walk(fn):
-            if isinstance(node, ast.Return):
-                ctx.check(isinstance(node.value, ast.Constant) and node.value.value is True, "exits", f"{vname}:return",
-                          "a return statement does not return True", P_VALIDATORS, node.lineno)
-            if isinstance(node, ast.Raise):
-                nm = microeval._dotted(node.exc.func) if isinstance(node.exc, ast.Call) else None
-                ctx.check(nm == "ValueError", "exits", f"{vname}:raise", f"raises {nm}, not ValueError", P_VALIDATORS, node.lineno)
-            if isinstance(node, (ast.Try, ast.With, ast.While, ast.For)):
-                raise AnalysisError(f"{P_VALIDATORS}:{node.lineno}: unexpected {type(node).__name__} in {vname}")
+        # exits are decided semantically above: every representative and every non-int argument ends in
+        # `return True` or in ValueError (a syntactic "raise ValueError(...)" rule was dropped: it fired on a
+        # behaviour-preserving refactoring that builds the exception in a helper)
 
     # ---- attachment in types.py
     im = _imgbase.image(ctx)
